@@ -249,9 +249,10 @@ def snap(w):
     return out
 
 
-def wrun(x, y, f):
-    """Fresh Weaver on copies of x, y; apply f; return (outcome, weaver, unchanged-on-error)."""
-    w = Weaver(np.array(x, copy=True), np.array(y, copy=True))
+def wrun(x, y, f, xnone=False):
+    """Fresh Weaver on copies of x, y; apply f; return (outcome, weaver, unchanged-on-error).  xnone: the documented form
+    Weaver(None, y) - the abscissae are the sample positions 0, 1, 2, ... (x must be exactly that)."""
+    w = Weaver(None, np.array(y, copy=True)) if xnone else Weaver(np.array(x, copy=True), np.array(y, copy=True))
     before = snap(w)
     oc, _ = guarded(lambda: f(w))
     return oc, w, (snap(w) == before)
@@ -285,9 +286,9 @@ def ex_repeat(c):
             for op in c["pre"]:
                 wcall(w, op)
             return w.repeat(rr)
-        woc, w, _ = wrun(arr(c["x0"]), arr(c["y0"]), go)
+        woc, w, _ = wrun(arr(c["x0"]), arr(c["y0"]), go, xnone=bool(c.get("xnone")))
     else:
-        woc, w, _ = wrun(x, y, lambda w: w.repeat(rr))
+        woc, w, _ = wrun(x, y, lambda w: w.repeat(rr), xnone=bool(c.get("xnone")))
     e = {k: v for k, v in c.items() if k not in ("x0", "y0", "pre")}
     e["reshaped"] = "x0" in c
     e.update(outcome=oc, outx=xvec(o[0], off, scl) if oc == "ok" else [], outy=vec(o[1]) if oc == "ok" else [], w_outcome=woc)
@@ -1151,6 +1152,8 @@ def ex_noise(c):
         kw = {"snr": snr_arg, "snr_in_db": c["mode"] == "db"}
         if c["mode"] == "db" and len(c["a"]) % 2 == 0:           # decibel is the documented default scale
             del kw["snr_in_db"]
+        if list(c["std"]) != [1, 1]:                              # a level and an explicit std in one call: the level decides
+            kw["std"] = fl(c["std"])
 
     def call():
         if c["via"] == "weaver":
@@ -1236,10 +1239,14 @@ def ex_smooth(c):
         return e
     scale = max(1.0, float(np.max(np.abs(y0))))
     d = gy - y0 if gy.shape == y0.shape else np.zeros_like(y0)
-    m = float(np.max(np.abs(d))) if len(d) else 0.0
-    unit = (m / 1000.0) if m > 0 else 1.0
-    dev = [int(round(v / unit)) for v in d]
-    s_scaled = int(min(10 ** 9, np.ceil(s / (unit * unit)))) if np.isfinite(s / (unit * unit)) else 10 ** 9
+    if len(d) and not np.all(np.isfinite(d)):
+        # a non-finite smoothed value is an unbounded deviation: recorded as one deviation that exceeds every representable condition
+        dev, s_scaled = [40000] + [0] * (len(d) - 1), int(min(10 ** 9, np.ceil(s))) if np.isfinite(s) else 10 ** 9
+    else:
+        m = float(np.max(np.abs(d))) if len(d) else 0.0
+        unit = (m / 1000.0) if m > 0 else 1.0
+        dev = [int(round(v / unit)) for v in d]
+        s_scaled = int(min(10 ** 9, np.ceil(s / (unit * unit)))) if np.isfinite(s / (unit * unit)) else 10 ** 9
     e.update(outcome="ok", n=len(y0), dev=dev, s_scaled=s_scaled, s_given=fx(s),
              # (x0 was converted to float for the comparison of values: an integer-typed x stays integer-typed, values equal)
              same_x=bool(gx.shape == x0.shape and np.array_equal(np.asarray(gx, dtype=float), x0)), same_len=bool(gy.shape == y0.shape),
